@@ -374,8 +374,11 @@ def _run_files(world, boot, only_unlocked, rewritten):
             return fd, fds[fd]
 
     def LazyJSON(f, reopen=True):
-        if disk[f]["bad"]:
+        if disk[f]["bad"] is True:
             raise ValueError("model: corrupt file")
+        if disk[f]["bad"] == NO_TS:
+            # valid JSON that is not a complete history file: no "ts" key (lj["ts"] raises KeyError, lj.get("ts", d) gives d)
+            return _LJ({k: v for k, v in disk[f].items() if k != "ts"})
         return _LJ(disk[f])
 
     def ljdump(obj, fp, sort_keys=False):
@@ -512,10 +515,13 @@ def ob_end_to_end(flags: tuple, unit: int, hsize: int, force: bool, boot: int, n
     return None
 
 
+NO_TS = 2  # third value of the 'unreadable' flag: readable JSON without the "ts" key (another kind of corrupt member)
+
+
 def _flagsets(nmax, ordered=False):
     import itertools
 
-    one = [(l, b) for l in (False, True) for b in (False, True)]
+    one = [(l, b) for l in (False, True) for b in (False, True)] + [(True, NO_TS)]
     out = []
     for n in range(nmax + 1):
         it = itertools.product(one, repeat=n) if ordered else itertools.combinations_with_replacement(one, n)
@@ -550,14 +556,14 @@ OBLIGATIONS = [
                timeout={"quick": 240, "thorough": 1200},
                symbolic="hsize, force, now, index of failing remove, " + _REC),
     Obligation("gc_files_filter", ob_files_filter,
-               bounds="exactly 0..2 files, every (locked, unreadable) flag pattern (thorough: plus three patterns of 3 files); "
+               bounds="exactly 0..2 files, every (locked, unreadable / readable-but-without-ts) flag pattern (thorough: plus three patterns of 3 files); "
                       "size, ts0, ts1, ncmds, boot unbounded ints",
                pre=["len(recs) == len(flags)", "boot >= 0"],
                parts={"quick": [dict(flags=fl) for fl in _flagsets(2)],
                       "thorough": [dict(flags=fl) for fl in _flagsets(2)]  # unordered: the files are symbolic and symmetric
                                   + [dict(flags=fl) for fl in (((False, False),) * 3, ((True, False), (False, False), (False, False)),
                                                                ((True, False), (True, False), (False, True)))]},  # 3 files: three patterns (each ~25 min of CPU)
-               timeout={"quick": 150, "thorough": 1500},
+               timeout={"quick": 240, "thorough": 1500},
                symbolic="boot time, only_unlocked; per file (size, ts0, ts1, ncmds)"),
     Obligation("gc_end_to_end", ob_end_to_end,
                bounds="quick: 0..1 files with every (locked, unreadable) pattern plus the pair (unlocked, live-locked); thorough: 0..2 files, every pattern; every unit",
